@@ -152,6 +152,11 @@ fn one_state<S: HB>(cfg: &HistCfg, rng: &mut Rng, base: usize, p: &InjectParams,
                 if p.markers { println!("CASE inject op=[{}] class={} n={} cfg=[{}] build=[{}]", op.to_text(), CLASS_NAMES[class], n, cfg.to_text(), build.iter().map(|o| o.to_text()).collect::<Vec<_>>().join("; ")); }
                 let fired = inject_case::<S>(cfg, &build, &op, class, n, universe, base, rng, p, out, None);
                 if fired { injected += 1; }
+                // double fault: the same panic with the 1st / 2nd allocation of a rebuilding operation refused as well
+                if class == C_HASH && !cfg!(miri) && matches!(op, Op::Reserve { .. } | Op::ShrinkTo { .. } | Op::ShrinkFit | Op::Insert { .. }) {
+                    for a in 1..=2u64 { if inject_case::<S>(cfg, &build, &op, class, n | (a << 32), universe, base, rng, p, out, None) { injected += 1; } }
+                    if n == 1 { for a in 1..=2u64 { if inject_case::<S>(cfg, &build, &op, class, 0xFFFF_FFFF | (a << 32), universe, base, rng, p, out, None) { injected += 1; } } }
+                }
                 if injected >= left { break; }
             }
             if injected >= left { break; }
@@ -167,6 +172,22 @@ fn post_panic_checks(tag: &str, obs: &Obs, pre: Option<&Obs>, class: usize, op: 
     if !obs.g1.is_empty() { return; }
     if obs.sum_rec() != obs.cur as u128 { v("recorded-sum", format!("{}: current_size() = {} but the sizes recorded for the {} remaining entries sum to {}", tag, obs.cur, obs.ents.len(), obs.sum_rec())); }
     for e in &obs.ents { if !ledger_is_live(e.kuid) || !ledger_is_live(e.vuid) { v("dropped-in-cache", format!("{}: entry {} holds a key/value that has been dropped", tag, e.id)); break; } }
+    // C05 is unconditional as well: whatever an operation manages to do before it unwinds, the entries that remain keep
+    // their relative order; only the entry a promoting operation addresses may have moved to the most-recently-used end.
+    if let Some(pre) = pre {
+        let moved: Option<u32> = match op { Op::Insert { id, .. } | Op::TryInsert { id, .. } | Op::Get { id, .. } | Op::GetEntry { id, .. } | Op::Touch { id, .. } | Op::Mutate { id, .. } => Some(*id), Op::GetLru => pre.ents.first().map(|e| e.id), _ => None };
+        let before: Vec<u32> = pre.ents.iter().map(|e| e.id).filter(|i| Some(*i) != moved && obs.has(*i)).collect();
+        let after: Vec<u32> = obs.ents.iter().map(|e| e.id).filter(|i| Some(*i) != moved && pre.has(*i)).collect();
+        if before != after && !matches!(op, Op::CloneFrom { .. }) {
+            viols.push(Viol { prop: "C05", sig: "order-after-panic".to_string(), msg: format!("{}: the entries that remain were in the order {:?} before and are in the order {:?} now", tag, before, after) });
+        }
+    }
+    // C01 is unconditional ("after every public operation returns"): the observation just made is a series of public
+    // operations that returned. C16 repeats the bound for closure panics only; for the other callbacks it is C01 that speaks.
+    if obs.cur > obs.max && !(class == C_CLOSURE || class == C_PRED) {
+        viols.push(Viol { prop: "C01", sig: "bound-after-panic".to_string(), msg: format!("{}: current_size() = {} > max_size() = {} once the panic has been caught", tag, obs.cur, obs.max) });
+    }
+    let mut v = |sig: &str, msg: String| viols.push(Viol { prop: "C16", sig: sig.to_string(), msg });
     if class == C_CLOSURE || class == C_PRED {
         if obs.cur > obs.max { v("closure-bound", format!("{}: current_size() = {} > max_size() = {} after a panic in the closure", tag, obs.cur, obs.max)); }
         if let Some(pre) = pre {
@@ -187,18 +208,26 @@ pub fn inject_case<S: HB>(cfg: &HistCfg, build: &[Op], op: &Op, class: usize, n:
     let mut viols: Vec<Viol> = Vec::new();
     let mut oplog: Vec<Op> = build.to_vec();
     oplog.push(op.clone());
-    arm(class, n);
+    // a second fault, independent of the first: the a-th allocation made inside the operation is refused (n's upper half)
+    let (n_enc, alloc_fail) = (n, n >> 32);
+    let n = n & 0xFFFF_FFFF;
+    arm(class, if n == 0xFFFF_FFFF { u64::MAX } else { n });
+    if alloc_fail > 0 { crate::ops::set_pending_alloc_fail(alloc_fail); }
     let o = apply(&mut caches, &mut cur, op, &mut held, base);
     let pending = fuse_pending();
     disarm();
     held.clear();
-    let fired = match &o.panic { Some(m) => m.contains(INJECTED), None => false };
+    // the infallible operations answer a refused allocation with a panic of their own (`unwrap` of the TryReserveError)
+    let refused = alloc_fail > 0 && matches!(&o.panic, Some(m) if m.contains("AllocError"));
+    if refused { out.stats.count("c16_allocation_refused_inside_infallible_rebuild"); if pending { out.stats.count("c16_refused_alone"); } }
+    let fired = refused || match &o.panic { Some(m) => m.contains(INJECTED), None => false };
+    if fired && alloc_fail > 0 && !refused { out.stats.count("c16_callback_panic_with_allocation_refusal_armed"); }
     if !fired {
         out.stats.count(if pending { "c16_fuse_not_reached" } else { "c16_panic_swallowed_or_other" });
         if let Some(m) = &o.panic { viols.push(Viol { prop: "C16", sig: "other-panic".into(), msg: format!("{} with a panic injected at {} #{} died with a different panic: {}", op.to_text(), CLASS_NAMES[class], n, m) }); }
         if viols.is_empty() { drop(caches); ledger_reset(); return false; }
     }
-    let what = format!("{} after a panic in {} callback #{}", op.to_text(), CLASS_NAMES[class], n);
+    let what = if refused { format!("{} whose allocation #{} was refused ({} callback panic armed at #{})", op.to_text(), alloc_fail, CLASS_NAMES[class], n) } else { format!("{} after a panic in {} callback #{}{}", op.to_text(), CLASS_NAMES[class], n, if alloc_fail > 0 { format!(" (allocation #{} refused before)", alloc_fail) } else { String::new() }) };
     // ---- immediately after the panic
     let mut broken = false;
     for (i, c) in caches.iter().enumerate() {
@@ -207,6 +236,7 @@ pub fn inject_case<S: HB>(cfg: &HistCfg, build: &[Op], op: &Op, class: usize, n:
         broken |= !ob.g1.is_empty();
         let key = mix(&[op.kind_index(), class as u64, n.min(8), pre.len.min(8) as u64, cfg.hk as u64, (ob.table_at != pre.table_at) as u64, ob.len.min(8) as u64]);
         out.stats.eval("C16", key);
+        if i == 0 { out.stats.eval("C01", mix(&[1601, op.kind_index(), class as u64, (ob.len < pre.len) as u64])); out.stats.eval("C05", mix(&[1605, op.kind_index(), class as u64, ob.len.min(6) as u64])); out.stats.count("c01_bound_checked_after_caught_panic"); out.stats.count("c05_order_checked_after_caught_panic"); }
     }
     for e in ledger_take_errors() { viols.push(Viol { prop: "C16", sig: "double-drop".into(), msg: format!("{}: {}", what, e) }); }
     out.stats.countf(format_args!("c16_fired_{}", CLASS_NAMES[class]));
@@ -230,7 +260,9 @@ pub fn inject_case<S: HB>(cfg: &HistCfg, build: &[Op], op: &Op, class: usize, n:
             let fop = match fixed_further { Some(f) => f[fi].clone(), None => match frozen { Some(fz) if fi == 0 && ob.has(fz) && g.rng.chance(1, 2) => {
                     // (the entry's size must stay representable in usize, as everywhere in the harness)
                     let room = ob.find(fz).map(|e| (usize::MAX - base).saturating_sub(e.kheap)).unwrap_or(0);
-                    Op::Mutate { id: fz, owned: g.rng.chance(1, 4), vh: g.rng.usize_below(4).min(room) } }, _ => g.next_op(&ob, cfg, caches.len(), cur) } };
+                    // a third of the time the closure leaves the value's size as it is now (and the record must still be corrected)
+                    let same = ob.find(fz).map(|e| e.vheap).unwrap_or(0);
+                    Op::Mutate { id: fz, owned: g.rng.chance(1, 4), vh: if g.rng.chance(1, 3) { same } else { g.rng.usize_below(4).min(room) } } }, _ => g.next_op(&ob, cfg, caches.len(), cur) } };
             if matches!(fop, Op::TryReserveFail { .. } | Op::Into { .. }) { continue; }
             let remutate = matches!((frozen, &fop), (Some(fz), Op::Mutate { id, .. }) if *id == fz);
             if remutate { out.stats.count("c16_remutate_after_panicked_mutate"); }
@@ -244,6 +276,15 @@ pub fn inject_case<S: HB>(cfg: &HistCfg, build: &[Op], op: &Op, class: usize, n:
             }
             if caches.is_empty() { break; }
             if cur >= caches.len() { cur = 0; }
+            // C11: a completed mutate "updates its accounted size to the new value's size" - also when the record was stale
+            if let (Op::Mutate { id, .. }, None, "ok_some") = (&fop, &fo.panic, fo.tag) {
+                let o3 = observe(&caches[cur], &light(caches[cur].len().min(4096)));
+                if let Some(e) = o3.find(*id) {
+                    out.stats.eval("C11", mix(&[1611, remutate as u64, (e.rec as u128 == e.esize(base)) as u64]));
+                    if remutate { out.stats.count("c11_completed_mutate_of_entry_with_stale_record"); }
+                    if e.rec as u128 != e.esize(base) { viols.push(Viol { prop: "C11", sig: "record-after-mutate".into(), msg: format!("{}: after the later, completed {} the size recorded for the entry is {}, entry_size(key, value) = {}", what, fop.to_text(), e.rec, e.esize(base)) }); }
+                }
+            }
             let mut bad = false;
             for (i, c) in caches.iter().enumerate() {
                 let o2 = observe(c, &light(c.len().min(4096)));
@@ -263,7 +304,7 @@ pub fn inject_case<S: HB>(cfg: &HistCfg, build: &[Op], op: &Op, class: usize, n:
         for e in ledger_take_errors() { viols.push(Viol { prop: "C16", sig: "double-drop".into(), msg: format!("{}, dropping the cache: {}", what, e) }); }
         out.stats.count("c16_dropped_after");
     }
-    if !viols.is_empty() { out.record_ex(&viols, cfg, &oplog, build.len(), Some((class, n))); }
+    if !viols.is_empty() { out.record_ex(&viols, cfg, &oplog, build.len(), Some((class, n_enc))); }
     if out.stats.samples.get("C16").map(|v| v.len()).unwrap_or(0) < 5 && (n + class as u64) % 7 == 0 { out.stats.sample("C16", format!("{} | state: {} | inject {} #{} into {}", cfg.to_text(), build.iter().map(|o| o.to_text()).collect::<Vec<_>>().join("; "), CLASS_NAMES[class], n, op.to_text())); }
     ledger_reset();
     true
